@@ -176,7 +176,12 @@ func runC11(c *fw.Case) {
 			f.Close()
 			defer os.Remove(f.Name())
 			for p := 0; p < nProc; p++ {
-				out, err := exec.Command(self, "replaylog", f.Name()).Output()
+				// the other process differs in everything a second machine legitimately may
+				// differ in: hash seeds, address space, local time zone, number of CPUs
+				cmd := exec.Command(self, "replaylog", f.Name())
+				tz := []string{"Pacific/Kiritimati", "America/Anchorage"}[p%2]
+				cmd.Env = append(os.Environ(), "TZ="+tz, fmt.Sprintf("GOMAXPROCS=%d", 1+p*3))
+				out, err := cmd.Output()
 				if err != nil {
 					c.Inconclusive("replica process failed: %v", err)
 					return
